@@ -99,3 +99,96 @@ with doc_unary : nat -> list N -> Prop :=
 
 (* the documented value expression: nesting at most MAX_EXPR_DEPTH *)
 Definition doc_vexpr (x : list N) : Prop := doc_value_expr max_expr_depth x.
+
+(* ================================================================================== *)
+(* Dates                                                                               *)
+(* ================================================================================== *)
+Definition date_sep (c : N) : Prop := c = 47 \/ c = 45.       (* / - *)
+
+(* date ::= <yyyy/mm/dd> | <yyyy-mm-dd> *)
+Inductive doc_date : list N -> Prop :=
+| DDate : forall y sep m d,
+    date_sep sep ->
+    all Comb.is_digit y -> length y = 4%nat ->
+    all Comb.is_digit m -> (1 <= length m <= 2)%nat ->
+    all Comb.is_digit d -> (1 <= length d <= 2)%nat ->
+    chrono_date y m d <> None ->
+    doc_date (y ++ [sep] ++ m ++ [sep] ++ d).
+
+(* ================================================================================== *)
+(* Metadata                                                                            *)
+(* ================================================================================== *)
+(* what follows the ";" :  metadata-key-value | metadata-tag-words | metadata-comment *)
+Inductive doc_meta_body : list N -> Prop :=
+| MB_kv : forall s1 k s2 v, sps0 s1 -> tag k -> sps0 s2 -> text v ->
+          doc_meta_body (s1 ++ k ++ s2 ++ [58] ++ v)
+| MB_tags : forall s1 ts, sps0 s1 -> ts <> [] -> Forall tag ts ->
+            doc_meta_body (s1 ++ [58] ++ flat_map (fun t => t ++ [58]) ts)
+| MB_comment : forall s1 t, sps0 s1 -> text t -> starts is_sp t = false ->
+               tags_like t = false -> kv_like t = false -> doc_meta_body (s1 ++ t).
+
+(* a metadata line (without its line end): indentation, ";", the item *)
+Inductive doc_meta_line : list N -> Prop :=
+| ML : forall s b, sps1 s -> doc_meta_body b -> doc_meta_line (s ++ [59] ++ b).
+
+(* ================================================================================== *)
+(* Postings                                                                            *)
+(* ================================================================================== *)
+Definition clear_mark (c : N) : Prop := c = 42 \/ c = 33.     (* * ! *)
+Definition note_char (c : N) : bool := negb (is_note_stop c).  (* [^()@] *)
+
+Inductive lot_kind := KPrice | KDate | KNote.
+
+(* lot-price ::= "{{" sp* expr sp* "}}" | "{" sp* expr sp* "}" ; lot-date ::= "[" sp* date sp* "]" ;
+   lot-note ::= "(" [^()@]* ")" *)
+Inductive doc_lot_part : lot_kind -> list N -> Prop :=
+| LP_total : forall s1 v s2, sps0 s1 -> doc_vexpr v -> sps0 s2 ->
+             doc_lot_part KPrice ([123; 123] ++ s1 ++ v ++ s2 ++ [125; 125])
+| LP_rate : forall s1 v s2, sps0 s1 -> doc_vexpr v -> sps0 s2 ->
+            doc_lot_part KPrice ([123] ++ s1 ++ v ++ s2 ++ [125])
+| LP_date : forall s1 dt s2, sps0 s1 -> doc_date dt -> sps0 s2 ->
+            doc_lot_part KDate ([91] ++ s1 ++ dt ++ s2 ++ [93])
+| LP_note : forall n, all note_char n -> doc_lot_part KNote ([40] ++ n ++ [41]).
+
+(* posting-lot: the parts in any order, each at most once, each followed by sp* *)
+Inductive doc_lot : list lot_kind -> list N -> Prop :=
+| DL_nil : doc_lot [] []
+| DL_cons : forall kd kds x s r, ~ In kd kds -> doc_lot_part kd x -> sps0 s -> doc_lot kds r ->
+            doc_lot (kd :: kds) (x ++ s ++ r).
+
+(* posting-cost ::= "@@" sp* value-expr | "@" sp* value-expr  (or absent) *)
+Inductive doc_cost : list N -> Prop :=
+| DC_none : doc_cost []
+| DC_total : forall s v, sps0 s -> doc_vexpr v -> doc_cost ([64; 64] ++ s ++ v)
+| DC_rate : forall s v, sps0 s -> doc_vexpr v -> doc_cost ([64] ++ s ++ v).
+
+(* posting-amount ::= value-expr sp* posting-lot? posting-cost? *)
+Inductive doc_posting_amount : list N -> Prop :=
+| DPA : forall v s kds l c, doc_vexpr v -> sps0 s -> doc_lot kds l -> doc_cost c ->
+        doc_posting_amount (v ++ s ++ l ++ c).
+
+(* balance ::= "=" sp* value-expr sp* *)
+Inductive doc_balance : list N -> Prop :=
+| DB : forall s v s', sps0 s -> doc_vexpr v -> sps0 s' -> doc_balance ([61] ++ s ++ v ++ s').
+
+(* posting-value ::= ("  " | "\t") sp* (posting-amount sp* )? balance? *)
+Definition value_gap (g : list N) : Prop := g = [32; 32] \/ g = [9].
+Inductive doc_posting_value : list N -> Prop :=
+| DPV : forall g s pa b, value_gap g -> sps0 s ->
+        (pa = [] \/ exists a s', doc_posting_amount a /\ sps0 s' /\ pa = a ++ s') ->
+        (b = [] \/ doc_balance b) ->
+        doc_posting_value (g ++ s ++ pa ++ b).
+
+(* posting-line ::= sp+ (clear-state sp* )? account posting-value? *)
+Inductive doc_posting_line : list N -> Prop :=
+| DPL : forall s cs a pv, sps1 s ->
+        ((cs = [] /\ starts is_clear_mark a = false) \/
+         exists c s', clear_mark c /\ sps0 s' /\ cs = c :: s') ->
+        wf_account a = true ->
+        (pv = [] \/ doc_posting_value pv) ->
+        doc_posting_line (s ++ cs ++ a ++ pv).
+
+(* posting ::= posting-line new-line (metadata new-line)* , as lines with their line ends *)
+Inductive doc_posting : lines -> Prop :=
+| DP : forall l e ms, doc_posting_line l -> Forall (fun le => doc_meta_line (fst le)) ms ->
+       doc_posting ((l, e) :: ms).
